@@ -21,6 +21,19 @@ def _no_crlf(b):
     return b.replace(b"\r\n", b"\rx")
 
 
+def _lone_lf(rng, b):
+    """Sprinkle LF bytes that are not preceded by CR into a string: they are ordinary bytes of the string (only CR LF
+    terminates an identification)."""
+    if len(b) < 2 or rng.random() > 0.12:
+        return b
+    b = bytearray(b)
+    for _ in range(rng.randrange(1, 3)):
+        i = rng.randrange(1, len(b))
+        if b[i - 1] != 0x0D and b[i] != 0x20:
+            b[i] = 0x0A
+    return bytes(b)
+
+
 def gen_banner(rng):
     """Well-formed identification string -> bytes (including CR LF and optional trailing bytes)."""
     proto = rng.choice([b"2.0", b"1.99"])
@@ -28,11 +41,13 @@ def gen_banner(rng):
     big = rng.random() < 0.06          # identification strings that do not fit one 1500-byte frame
     soft = _no_crlf(_fill(rng, rng.choice([rng.randrange(0, 40), rng.randrange(0, 40), rng.randrange(40, 250)]) if not big or rng.random() < 0.5
                           else rng.randrange(1400, 3700), (0x20, 0x0A)))
+    soft = _lone_lf(rng, soft)
     if rng.random() < 0.15:
         soft += b"\r" * rng.randrange(1, 4)          # software ending in lone CR(s)
     out = b"SSH-" + proto + vext + b"-" + soft
     if rng.random() < 0.5:
         com = _no_crlf(_fill(rng, rng.choice([rng.randrange(0, 40), rng.randrange(40, 250)]) if not big or len(soft) > 1000 else rng.randrange(1400, 3700), (0x0A,)))
+        com = _lone_lf(rng, com)
         if rng.random() < 0.15:
             com += b"\r" * rng.randrange(1, 4)
         out += b" " + com
